@@ -142,14 +142,19 @@ class Tree:
         inl.run()
         self.inlined = inl.log
         self._normalise_bodies()
+        self._canonical_locals()
 
     def _normalise_bodies(self):
-        from .normalise import inline_aliases, loops_to_comprehensions
+        from .normalise import inline_aliases, loops_to_comprehensions, positive_ifexps, unroll_literal_loops, updates_to_loops, inline_single_use_temps
 
         self.normalised: List[str] = []
         for f in list(self.funcs.values()):
             if f.module.is_test():
                 continue
+            positive_ifexps(f.node)
+            unroll_literal_loops(f.node)
+            updates_to_loops(f.node)
+            inline_single_use_temps(f.node)
             n = loops_to_comprehensions(f.node)
             # inline_aliases needs many CFG builds: only for functions that have candidate assignments
             names = inline_aliases(f.node, max_rounds=12)
@@ -187,6 +192,14 @@ class Tree:
                     x.arg = mapping[x.arg]
             self._rename(f.node, mapping, top=True)
             self.renamed.append(f"{key}: {mapping}")
+        self._canonical_locals()
+
+    def _canonical_locals(self):
+        import json
+
+        spec = Path(__file__).resolve().parent.parent / "spec" / "param_names.json"
+        if not spec.exists() or os.environ.get("VERIF_NO_CANON"):
+            return
         # local variables: same number of bindings of the same kinds in the same order => positional rename
         lspec = spec.with_name("local_names.json")
         if lspec.exists():
@@ -195,22 +208,48 @@ class Tree:
                 f = self.funcs.get(key)
                 if f is None:
                     continue
-                have = local_bindings(f.node)
-                if len(have) != len(want) or have == want or [k for _, k in have] != [k for _, k in want]:
-                    continue
+                have = local_bindings(f.node, defs=True)
                 if {h[0] for h in have} == {w[0] for w in want}:
-                    continue  # same names in another order (reordered independent statements): nothing to rename
-                mapping = {h[0]: w[0] for h, w in zip(have, want) if h[0] != w[0] and h[1] not in ("def", "import")}
+                    continue  # same names (possibly in another order: reordered independent statements): nothing to rename
+                mapping = match_locals(have, want) if want and len(want[0]) == 4 else {}
+                # leftovers: positional among the unmatched when their kinds agree
+                rest_h = list({h[0]: h for h in reversed(have) if h[0] not in mapping}.values())[::-1]
+                rest_w = list({w[0]: w for w in reversed(want) if w[0] not in mapping.values()}.values())[::-1]
+                if len(rest_h) == len(rest_w) and [h[1] for h in rest_h] == [w[1] for w in rest_w]:
+                    for h, w in zip(rest_h, rest_w):
+                        mapping[h[0]] = w[0]
+                mapping = {k: v for k, v in mapping.items() if k != v}
+                if not mapping:
+                    continue
+                # a swap of two names cannot be done in one pass without capture: go through temporaries
                 a = f.node.args
                 pnames = {x.arg for x in a.posonlyargs + a.args + a.kwonlyargs}
                 used = {n.id for n in ast.walk(f.node) if isinstance(n, ast.Name)} | pnames
-                if any(w in used and w not in mapping for w in mapping.values()) or len(set(mapping.values())) != len(mapping):
-                    continue
-                self._rename(f.node, mapping, top=True)
-                for n in ast.walk(f.node):
-                    if isinstance(n, ast.ExceptHandler) and n.name in mapping:
-                        n.name = mapping[n.name]
+                merging = any(w in used and w not in mapping for w in mapping.values()) or len(set(mapping.values())) != len(mapping)
+                if merging:
+                    # one pinned name for several locals (the function used to reuse a variable): accepted when the def-use chains
+                    # are unchanged by the merge and no merged name is visible to a nested scope
+                    from .normalise import comprehension_vars, names_in_nested_scopes, same_def_use
+                    from .astq import ast_copy
+
+                    touched = set(mapping) | set(mapping.values())
+                    if touched & (names_in_nested_scopes(f.node) | comprehension_vars(f.node) | pnames):
+                        continue
+                    trial = ast_copy(f.node)
+                    self._rename_two_pass(trial, mapping)
+                    if not same_def_use(f.node, trial):
+                        continue
+                self._rename_two_pass(f.node, mapping)
                 self.renamed.append(f"{key}: locals {mapping}")
+
+    def _rename_two_pass(self, fn, mapping):
+        # a swap of two names cannot be done in one pass without capture: go through temporaries
+        tmp = {k: f"__ren_{i}" for i, k in enumerate(mapping)}
+        for mp in (tmp, {tmp[k]: v for k, v in mapping.items()}):
+            self._rename(fn, mp, top=True)
+            for n in ast.walk(fn):
+                if isinstance(n, ast.ExceptHandler) and n.name in mp:
+                    n.name = mp[n.name]
 
     def _rename(self, node, mapping, top=False):
         for child in ast.iter_child_nodes(node):
@@ -406,46 +445,54 @@ class Tree:
         return out
 
 
-def local_bindings(fn) -> list:
+def local_bindings(fn, defs=False) -> list:
     """[(name, kind)] of the local names of a function in order of first binding (source order);
-    nested function / class bodies, comprehension and lambda variables are not included"""
+    nested function / class bodies, comprehension and lambda variables are not included.
+    With defs=True: [(name, kind, position-in-target, source of the first bound value)]"""
     out = []
     seen = set()
 
-    def add(name, kind):
-        if name not in seen:
+    def add(name, kind, val=None, pos=""):
+        if name not in seen or defs:
             seen.add(name)
-            out.append([name, kind])
+            if defs:
+                try:
+                    txt = ast.unparse(val) if isinstance(val, ast.AST) else (val or "")
+                except Exception:
+                    txt = ""
+                out.append([name, kind, pos, txt])
+            else:
+                out.append([name, kind])
 
-    def targets(t, kind):
+    def targets(t, kind, val=None, pos=""):
         if isinstance(t, ast.Name):
-            add(t.id, kind)
+            add(t.id, kind, val, pos)
         elif isinstance(t, (ast.Tuple, ast.List)):
-            for e in t.elts:
-                targets(e, kind)
+            for i, e in enumerate(t.elts):
+                targets(e, kind, val, f"{pos}.{i}")
         elif isinstance(t, ast.Starred):
-            targets(t.value, kind)
+            targets(t.value, kind, val, pos + "*")
 
     def visit(node):
         for child in ast.iter_child_nodes(node):
             if isinstance(child, FUNC_TYPES + (ast.ClassDef,)):
-                add(child.name, "def")
+                add(child.name, "def", child.name)
                 continue
             if isinstance(child, (ast.Lambda, ast.ListComp, ast.SetComp, ast.DictComp, ast.GeneratorExp)):
                 continue
             if isinstance(child, ast.Assign):
                 visit(child.value)
                 for t in child.targets:
-                    targets(t, "assign")
+                    targets(t, "assign", child.value)
                 continue
             if isinstance(child, (ast.AnnAssign, ast.AugAssign)):
                 if child.value is not None:
                     visit(child.value)
-                targets(child.target, "assign")
+                targets(child.target, "assign", child.value)
                 continue
             if isinstance(child, (ast.For, ast.AsyncFor)):
                 visit(child.iter)
-                targets(child.target, "for")
+                targets(child.target, "for", child.iter)
                 for b in child.body + child.orelse:
                     visit_stmt(b)
                 continue
@@ -453,23 +500,23 @@ def local_bindings(fn) -> list:
                 for i in child.items:
                     visit(i.context_expr)
                     if i.optional_vars is not None:
-                        targets(i.optional_vars, "with")
+                        targets(i.optional_vars, "with", i.context_expr)
                 for b in child.body:
                     visit_stmt(b)
                 continue
             if isinstance(child, ast.ExceptHandler):
                 if child.name:
-                    add(child.name, "except")
+                    add(child.name, "except", child.type)
                 for b in child.body:
                     visit_stmt(b)
                 continue
             if isinstance(child, ast.NamedExpr):
                 visit(child.value)
-                targets(child.target, "walrus")
+                targets(child.target, "walrus", child.value)
                 continue
             if isinstance(child, (ast.Import, ast.ImportFrom)):
                 for a in child.names:
-                    add((a.asname or a.name).split(".")[0], "import")
+                    add((a.asname or a.name).split(".")[0], "import", a.name)
                 continue
             visit(child)
 
@@ -482,3 +529,74 @@ def local_bindings(fn) -> list:
     a = fn.args
     params = {x.arg for x in a.posonlyargs + a.args + a.kwonlyargs}
     return [x for x in out if x[0] not in params]
+
+
+def match_locals(have, want) -> dict:
+    """Alpha-renaming of local names by definition signature: have / want are lists of (name, kind, pos, value-source), one per binding.
+    A local of the analysed function is matched with the pinned local one of whose bindings has the same kind, target position and value
+    as its first binding, once the already matched locals are renamed and the unmatched ones blanked; ties are broken by order. Several
+    locals may map to one pinned name (the pinned function reused a variable): the caller checks that def-use chains are unchanged."""
+    first = {}
+    for h in have:
+        first.setdefault(h[0], h)
+    hset = set(first)
+    wset = {w[0] for w in want}
+    mapping = {}
+    consumed = set()
+    parsed = {}
+
+    def sig(entry, names, known):
+        name, kind, pos, txt = entry
+        if kind in ("def", "import"):
+            return f"{kind}:{name}"
+        key = (kind, txt)
+        if key not in parsed:
+            try:
+                parsed[key] = ast.parse(txt, mode="eval").body if txt else None
+            except SyntaxError:
+                parsed[key] = None
+        e = parsed[key]
+        if e is None:
+            return f"{kind}:{pos}:{txt}"
+        saved = []
+        for n in ast.walk(e):
+            if isinstance(n, ast.Name):
+                saved.append((n, n.id))
+                n.id = known.get(n.id, "\u00a7" if n.id in names else n.id)
+        out = f"{kind}:{pos}:" + ast.unparse(e)
+        for n, i in saved:
+            n.id = i
+        return out
+
+    rounds = 0
+    progress = True
+    while progress and rounds < 12:
+        rounds += 1
+        progress = False
+        wknown = {v: v for v in mapping.values()}
+        hs, ws = {}, {}
+        for name, h in first.items():
+            if name not in mapping:
+                hs.setdefault(sig(h, hset, mapping), []).append(name)
+        for i, w in enumerate(want):
+            if i not in consumed:
+                ws.setdefault(sig(w, wset, wknown), []).append(i)
+        for k, names in hs.items():
+            cand = ws.get(k)
+            if not cand:
+                continue
+            # the same name on both sides with the same definition: keep it
+            for nm in list(names):
+                same = [i for i in cand if want[i][0] == nm]
+                if same:
+                    mapping[nm] = nm
+                    consumed.add(same[0])
+                    cand.remove(same[0])
+                    names.remove(nm)
+                    progress = True
+            if names and len(cand) == len(names) and (len(cand) == 1 or rounds > 3):
+                for a, i in zip(names, cand):
+                    mapping[a] = want[i][0]
+                    consumed.add(i)
+                progress = True
+    return mapping
